@@ -288,14 +288,15 @@ static unsigned long long n_limit = 0;
 static void limit_sweep(void) {
     static const int codes[] = {-100, -101, -350, -213, 77};
     int ci, T, q1, q2, first, mode;
-    for (ci = 0; ci < 5; ci++) for (T = 249; T <= 259; T++) for (first = 0; first < 2; first++) for (q1 = -1; q1 < 6; q1++) for (q2 = q1; q2 < 6; q2++) for (mode = 0; mode < 3; mode++) {
+    for (ci = 0; ci < 5; ci++) for (T = 249; T <= 262; T++) for (first = 0; first < 2; first++) for (q1 = -1; q1 < 6; q1++) for (q2 = q1; q2 < 6; q2++) for (mode = 0; mode < 3; mode++) {
         char text[320], exp[700], one[700];
-        int dl = (int) strlen(SCPI_ErrorTranslate((int16_t) codes[ci])), tl = T - dl - 1, i;
+        int dl = (int) strlen(SCPI_ErrorTranslate((int16_t) codes[ci])), tl = T <= 259 ? T - dl - 1 : T == 260 ? 256 : T == 261 ? 257 : 300, i;      /* 260..262: texts of 256, 257, 300 characters */
         if (q1 < 0 && q2 != q1) continue;
         if (tl < 8) continue;
         for (i = 0; i < tl; i++) text[i] = (char) ('a' + i % 26);
         text[tl] = 0;
         if (first) text[0] = '"';
+        text[2] = '\'';                                    /* an apostrophe is an ordinary character of the text */
         if (q1 >= 0) text[tl - 1 - q1] = '"';
         if (q2 >= 0) text[tl - 1 - q2] = '"';
         outn = 0; outbuf[0] = 0;
